@@ -798,6 +798,18 @@ fn boxed_case(a: &Limbs, b: &Limbs, l: &mut Local) {
         cs.check("Boxed::wrapping_neg", "any", &ng, guard(|| Out::v(&bw(&xa.wrapping_neg()))));
         cs.check("Boxed:WrappingNeg", "any", &ng, guard(|| Out::v(&bw(&WrappingNeg::wrapping_neg(&xa)))));
         cs.check("-Wrapping<Boxed>", "any", &ng, guard(|| Out::v(&bw(&(-Wrapping(xa.clone())).0))));
+        // the subtle::ConditionallyNegatable route: chosen = the negation, not chosen = the operand
+        cs.check("Boxed:ConditionallyNegatable(1)", "any", &ng, guard(|| {
+            let mut t = xa.clone();
+            crypto_bigint::subtle::ConditionallyNegatable::conditional_negate(&mut t, crypto_bigint::subtle::Choice::from(1));
+            Out::v(&bw(&t))
+        }));
+        cs.group();
+        cs.check("Boxed:ConditionallyNegatable(0)", "any", &Out::v(a), guard(|| {
+            let mut t = xa.clone();
+            crypto_bigint::subtle::ConditionallyNegatable::conditional_negate(&mut t, crypto_bigint::subtle::Choice::from(0));
+            Out::v(&bw(&t))
+        }));
     }
 }
 
